@@ -235,7 +235,7 @@ func noteParseStats(r *vstat.Run, c *gramCase, p *parsed) {
 	}
 }
 
-var c01Opts = gram.GenOpts{MaxProds: 5, MaxDepth: 4, TrapPercent: 25, PosStyles: true, MixedUnion: true, Profiles: true, Parseables: true, DeepEmbeds: true}
+var c01Opts = gram.GenOpts{MaxProds: 5, MaxDepth: 4, TrapPercent: 25, PosStyles: true, MixedUnion: true, Profiles: true, Parseables: true, DeepEmbeds: true, Statics: true}
 
 func TestC01(t *testing.T) { runProp(t, "C01", c01Rule, propC01) }
 
